@@ -69,6 +69,7 @@ def check(ctx):
     ctx.rule("C02.B2", "gather: exact-type dispatch; containers holding a node are rebuilt by the matching gather function with children in order; everything else (plain containers, container subclasses, opaque objects) is passed as the very object")
     ctx.rule("C02.B3", "dispatch table: keys are exactly {list, tuple, set, dict}; each value g has the form `def g(*args): return T(args)` for its own key T")
     ctx.rule("C02.B4", "call binding: argument values are read from the slots in list/name order at call time, the function is invoked as retry(fn)(*args, **kwargs), the result is stored in the call's own slot; bound calls map the reader's lists through the slot table element-wise")
+    ctx.rule("C02.B7", "functions on the path of the user's **kwargs declare their own parameters positional-only (any keyword name, e.g. fn= or stack_frame=, can be passed to a call)")
     ctx.rule("C02.B5", "output plumbing: run returns run_physical's value, which is the value of the slot of the (redirected) output node; the output spec is gathered")
     ctx.rule("C02.B6", "unpack: one getitem call per index in range(length) on the node produced by the builtin unpack, which raises unless exactly `length` items were drawn (evaluated for lengths 0..3)")
     ctx.assume("behaviour of list/tuple/set/dict/islice and of user functions is trusted; schedule independence of values follows from C01 + C04 + per-call slots")
@@ -215,6 +216,9 @@ def check(ctx):
     init = bc.methods["__init__"]
     ok = [norm(x) for x in init.node.body] == ["self.args = args", "self.kwargs = kwargs", "self.result = result"] and init.pos_params[1:] == ["args", "kwargs", "result"]
     ctx.ob("C02.B4", "BoundCall.__init__/fields", ok, loc(init), "constructor argument order matches field assignment")
+    from .extra import rule_result_slots, rule_kwargs_positional_only
+    ctx.run(rule_result_slots, "C02.B4")
+    ctx.run(rule_kwargs_positional_only, "C02.B7")
     # ---------------------------------------------------------------- B5
     run = rr.run
     rets = [n_ for n_ in run.own_nodes() if isinstance(n_, ast.Return) and n_.value is not None and isinstance(n_.value, ast.Call) and rr.run_physical in m.callee_funcs(run, n_.value)]
@@ -251,15 +255,20 @@ def check(ctx):
     bad = []
     for length in range(0, 4):
         for have in range(0, 6):
-            interp = Interp(m, ext={"itertools.islice": lambda it, k: list(it)[:k], "builtins.ValueError": lambda *a: ("ValueError",) + a})
-            n_eval += 1
-            try:
-                out = interp.call_func(bu[0], None, [list(range(have)), length], {})
-                raised = False
-            except AbsRaise:
-                out, raised = None, True
-            if raised != (have != length) or (not raised and tuple(out) != tuple(range(length))):
-                bad.append((length, have, raised, out))
+            for kind in ("list", "dict"):
+                interp = Interp(m, ext={"itertools.islice": lambda it, k: list(it)[:k], "builtins.ValueError": lambda *a: ("ValueError",) + a,
+                                        "builtins.hasattr": lambda o, a: hasattr(o, a), "builtins.iter": lambda o: list(o)})
+                n_eval += 1
+                src = list(range(have)) if kind == "list" else {10 + i: i for i in range(have)}
+                want = tuple(range(length)) if kind == "list" else tuple(10 + i for i in range(length))
+                try:
+                    out = interp.call_func(bu[0], None, [src, length], {})
+                    raised = False
+                except AbsRaise:
+                    out, raised = None, True
+                if raised != (have != length) or (not raised and (type(out) is not tuple or out != want)):
+                    bad.append((kind, length, have, raised, out))
     ctx.notes["unpack_cases_evaluated"] = n_eval
-    ctx.ob("C02.B6", f"{bu[0].short}/exact-length", not bad, loc(bu[0]), f"raises unless exactly `length` items were drawn ({n_eval} cases)" if not bad else
-           f"builtin unpack misbehaves for (length, available, raised, result) = {bad[:3]}")
+    ctx.ob("C02.B6", f"{bu[0].short}/exact-length", not bad, loc(bu[0]),
+           f"returns the tuple of the first `length` items and raises unless exactly `length` items were drawn ({n_eval} cases: lists and dicts)" if not bad else
+           f"builtin unpack misbehaves for (kind, length, available, raised, result) = {bad[:3]}: getitem(t, index) must index the drawn items positionally")
